@@ -175,7 +175,7 @@ class MarkerPlan(Plan):
                     "A-STDLIB itertools.product over an abstract list of lists: every tuple takes one member of each list in order, the product is empty iff a list is, and it contains the tuple picked by "
                     "the two choice functions the distributive law needs (contracts/markers.py: product_contract)",
                     "assumed contracts (guarded by the bounded part): for version-valued atoms the bridge 'an atom holds iff its specifier view admits the environment's value' "
-                    "(C11 a, proved by the C11 check relative to A-PKG-CONTAINS); _normalize_python_version_specifier and from_specifier by their C11 contracts (proved by the C11 check)", "A-STDLIB set semantics: set(xs), issubset, intersection, difference, `in` decide membership by == with an element (hash consistent with ==: C13)",
+                    "(C11 a, proved by the C11 check relative to A-PKG-CONTAINS; it holds for environment values that are final releases - for pre-/post-/dev-release values it does not, which is the open finding D22 shown by the bounded part); _normalize_python_version_specifier and from_specifier by their C11 contracts (proved by the C11 check)", "A-STDLIB set semantics: set(xs), issubset, intersection, difference, `in` decide membership by == with an element (hash consistent with ==: C13)",
                     "A-HASHSEED", "A-TERM"]
     rtc = [("marker_algebra", None)]
 
@@ -508,7 +508,7 @@ def run_property(pid, tier, seed, nproc):
                               "failures": len(fl), "not_evaluated": r.get("not_evaluated", 0), "wall_s": r.get("wall_s")})
         seen = set()
         for f in fl:
-            sig = {"check": f["check"], "input": f.get("input"), "obligation": None}
+            sig = {"check": f["check"], "input": f.get("input"), "obligation": None, "observed": f.get("observed"), "expected": f.get("expected")}
             hit = next((e for e in findings if common.finding_matches(e, pid, sig)), None)
             key = (f["check"], hit["id"] if hit else None)   # one witness per (check, finding class); unmatched ones are never masked
             if key in seen:
@@ -521,7 +521,7 @@ def run_property(pid, tier, seed, nproc):
     reported = []
     for v in violations:
         sig = {"check": v.get("check") or (v["concrete"] or {}).get("check", ""), "input": (v["concrete"] or {}).get("input"),
-               "obligation": v.get("obligation")}
+               "obligation": v.get("obligation"), "observed": (v["concrete"] or {}).get("observed"), "expected": (v["concrete"] or {}).get("expected")}
         hit = next((e for e in findings if common.finding_matches(e, pid, sig)), None)
         if hit:
             known.append((hit, v))
